@@ -88,6 +88,27 @@ WITNESSES: dict[str, dict[str, str]] = {
         "b.py": "def f(x: bytes) -> None: ...\nf(bytearray(b''))\nf(memoryview(b''))\n",
         "builtins.pyi": "@fixtures/primitives.pyi",
     },
+    # checked against the bundled typeshed (TypedDict.update, ParamSpec, deprecated, tuple unpacking need the real stubs)
+    "typeshed": {
+        "a.py": "import b\nfrom b import Optional as O2\nv: int = b.r2()\n",
+        "b.py": (
+            "from typing import TypedDict, Callable, Optional, TypeVar, List\n"
+            "from typing_extensions import deprecated\n"
+            "T = TypeVar('T'); S = TypeVar('S'); U = TypeVar('U')\n"
+            "def dec(f: Callable[[T], S]) -> Callable[[T], List[S]]:\n    raise NotImplementedError\n"
+            "def ident(x: U) -> U:\n    return x\n"
+            "reveal_type(dec(ident))\n"
+            "def redef(a: int) -> None:\n    a = str(a)\n    reveal_type(a)\n"
+            "def r2() -> int:\n    y = 1\n    print(y)\n    y = ''\n    reveal_type(y)\n    return 1\n"
+            "class Foo(TypedDict):\n    a: int\n"
+            "class Bar(TypedDict):\n    a: int\n    b: int\n"
+            "def test(foo: Foo, bar: Bar) -> None:\n    bar.update(foo)\n"
+            "def eqn(a: int) -> bool:\n    return a == None\n"
+            "@deprecated('use g2')\ndef oldf() -> None:\n    pass\noldf()\n"
+            "tp = (1, *[2, 3])\nreveal_type(tp)\n"
+            "def unr(a: int) -> int:\n    if isinstance(a, int):\n        return 1\n    a.nope\n    return 2\n"
+        ),
+    },
     # two plugins that hook the same function: the first one listed wins
     "plugins": {
         "a.py": "import lib\nx: int = lib.make()\ny: str = lib.make()\n",
@@ -118,7 +139,15 @@ VALUED: dict[str, list[tuple[dict[str, Any], dict[str, Any]]]] = {
 CONTEXT_FLAGS = {"show_error_code_links": "--show-error-code-links", "hide_error_codes": "--hide-error-codes", "show_column_numbers": "--show-column-numbers",
                  "show_error_end": "--show-error-end", "show_error_context": "--show-error-context", "pretty": "--pretty",
                  "show_absolute_path": "--show-absolute-path", "warn_unused_ignores": "--warn-unused-ignores", "strict_optional": "--no-strict-optional",
-                 "ignore_missing_imports": "--ignore-missing-imports", "check_untyped_defs": "--check-untyped-defs"}
+                 "ignore_missing_imports": "--ignore-missing-imports", "check_untyped_defs": "--check-untyped-defs",
+                 "strict_equality": "--strict-equality", "strict_equality_for_none": "--strict-equality-for-none",
+                 "report_deprecated_as_note": "--report-deprecated-as-note"}
+# contexts that are not themselves toggled
+CTX_ONLY = {"enable_deprecated": "--enable-error-code=deprecated"}
+# what the (slow) typeshed witness is used for
+TYPESHED_OPTS = {"allow_redefinition_old", "extra_checks", "implicit_reexport", "enable_incomplete_feature", "check_unreachable", "old_type_inference",
+                 "strict_optional", "warn_unreachable", "allow_redefinition", "strict_equality", "local_partial_types", "strict_bytes"}
+TYPESHED_CTX = {("strict_equality_for_none", "strict_equality"), ("report_deprecated_as_note", "enable_deprecated")}
 FLAG_WITNESS_EXTRA = {"always_true": "FLAG = 0\nif FLAG:\n    1 + ''\nelse:\n    2 + ''\n", "always_false": "FLAG = 0\nif FLAG:\n    1 + ''\nelse:\n    2 + ''\n"}
 
 
@@ -150,9 +179,9 @@ def write_ini(root: str, setting: dict[str, Any]) -> list[str]:
     return list(setting.get("cli", []))
 
 
-def run(root: str, setting: dict[str, Any], cache: str | None, tick: int) -> dict[str, Any]:
+def run(root: str, setting: dict[str, Any], cache: str | None, tick: int, real_typeshed: bool = False) -> dict[str, Any]:
     args = write_ini(root, setting)
-    return W.run_build(root, cache_dir=cache, tick=tick, record=False, extra_opts={"cli_args": args})
+    return W.run_build(root, cache_dir=cache, tick=tick, record=False, extra_opts={"cli_args": args, "real_typeshed": real_typeshed})
 
 
 def case_worker(case: dict[str, Any]) -> dict[str, Any]:
@@ -163,8 +192,9 @@ def case_worker(case: dict[str, Any]) -> dict[str, Any]:
     res: dict[str, Any] = {"case": {k: case[k] for k in ("opt", "place", "witness", "idx")}, "affects": False, "stale": [], "runs": 0, "set_ok": True}
     materialise(src, case["witness"])
     A, B = case["A"], case["B"]
-    coldA = run(src, A, None, 0)
-    coldB = run(src, B, None, 0)
+    rt = case["witness"] == "typeshed"
+    coldA = run(src, A, None, 0, rt)
+    coldB = run(src, B, None, 0, rt)
     res["runs"] += 2
     if coldA.get("crash") or coldB.get("crash"):
         res["crash"] = (coldA.get("crash") or coldB.get("crash"))[-500:]
@@ -177,7 +207,7 @@ def case_worker(case: dict[str, Any]) -> dict[str, Any]:
             tick = 5000
             last = None
             for i, s in enumerate(seq):
-                r = run(src, s, cache, tick); tick = r["tick"]
+                r = run(src, s, cache, tick, rt); tick = r["tick"]
                 res["runs"] += 1
                 cold_ = coldA if s is A else coldB
                 if r.get("crash") or W.norm(r) != W.norm(cold_):
@@ -226,7 +256,7 @@ def option_table() -> tuple[list[dict[str, Any]], dict[str, Any]]:
             # the option reaches b only through a wildcard section ([mypy-b.*] covers b and its submodules)
             places.append(("permod-glob", {"permod": "%s = %s" % (name, dv), "section": "b.*"}, {"permod": "%s = %s" % (name, not dv), "section": "b.*"}))
         if name in CONTEXT_FLAGS:
-            for ctx, cflag in sorted(CONTEXT_FLAGS.items()):
+            for ctx, cflag in sorted(dict(CONTEXT_FLAGS, **CTX_ONLY).items()):
                 if ctx != name:
                     places.append(("cli+ctx:" + ctx, {"cli": [cflag]}, {"cli": [cflag, CONTEXT_FLAGS[name]]}))
         for place, A, B in places:
@@ -274,8 +304,16 @@ def main(argv: list[str]) -> int:
         for wn in wnames:
             if (wn == "plugins") != (t["opt"] == "plugins"):
                 continue
-            if t["place"].startswith("cli+ctx:") and wn not in ("generic", "display", "imports"):
+            if t["place"].startswith("cli+ctx:") and wn not in ("generic", "display", "imports", "typeshed"):
                 continue
+            if wn == "typeshed":
+                if t["place"].startswith("cli+ctx:"):
+                    if (t["opt"], t["place"].split(":", 1)[1]) not in TYPESHED_CTX:
+                        continue
+                elif t["opt"] not in TYPESHED_OPTS:
+                    continue
+                elif tier == "quick" and t["place"] not in ("cli", "permod"):
+                    continue      # the typeshed witness is slow: quick uses two places, thorough all
             cases.append(dict(t, witness=wn))
     results = []
     with ProcessPoolExecutor(16) as pex:
